@@ -191,9 +191,14 @@ func verifMatchAny(globs []string, base string) bool {
 
 var verifLongName = "snap.foo." + strings.Repeat("x", 241) // 250 bytes: fits NAME_MAX, its temp name does not
 
+// verifShort is the display form of a name: the 250 byte name is abbreviated
+// and the random part of AtomicWrite's temporary names is masked.
 func verifShort(rel string) string {
-	if strings.HasSuffix(rel, verifLongName) {
-		return strings.TrimSuffix(rel, verifLongName) + "snap.foo.<long250>"
+	if n := len(rel); n >= 14 && rel[n-1] == '~' && rel[n-14] == '.' {
+		rel = rel[:n-13] + "<tmp>~"
+	}
+	if i := strings.Index(rel, verifLongName); i >= 0 {
+		rel = rel[:i] + "snap.foo.<long250>" + rel[i+len(verifLongName):]
 	}
 	return rel
 }
@@ -338,14 +343,29 @@ const (
 	verifWantSymlink
 )
 
+// verifFaultSpec is the drawn fault of one desired name; states are built
+// from it (a fresh one for every execution of the round).
+type verifFaultSpec struct {
+	failCall     int
+	readFailCall int
+	readFailAt   int
+	chunk        int
+	badKind      int // 1 missing reference, 2 reference to a directory, 3 memory state with directory mode, 4 named pipe mode
+}
+
 type verifWant struct {
-	kind   int
-	data   []byte
-	mode   os.FileMode
-	target string
-	bad    string // non-empty: the state can never be satisfied (real error out of snapd's own FileState code)
-	fault  string // description of the injected fault, for the log
-	st     *verifState
+	kind    int
+	data    []byte
+	mode    os.FileMode
+	target  string
+	bad     string // non-empty: the state can never be satisfied (real error out of snapd's own FileState code)
+	fault   string // description of the injected fault, for the log
+	fs      verifFaultSpec
+	srcPath string
+}
+
+func (w *verifWant) regular() bool {
+	return w != nil && w.kind != verifWantNone && w.kind != verifWantSymlink && w.bad == ""
 }
 
 func (w *verifWant) desc() string {
@@ -370,46 +390,24 @@ func (w *verifWant) String() string {
 // ---------------------------------------------------------------------------
 // snapshots
 
+type verifEnt struct {
+	kind   byte // 'd' directory, 'f' regular, 'l' symlink, 'o' other
+	data   []byte
+	perm   os.FileMode
+	target string
+}
+
 type verifSnap struct {
-	direct   map[string]string // relpath -> lstat descriptor
-	resolved map[string]string // symlinks only: descriptor of what they resolve to
-	fullDir  map[string]bool   // directories with at least one entry
-	size     map[string]int64  // regular files
+	direct   map[string]string   // relpath -> lstat descriptor (what the oracle looks at)
+	resolved map[string]string   // symlinks only: descriptor of what they resolve to
+	fullDir  map[string]bool     // directories with at least one entry
+	size     map[string]int64    // regular files
+	ents     map[string]verifEnt // every path below the root, with content: enough to restore it
 }
 
 // verifCurRoot is the scratch root of the current run; it is cut out of every
 // descriptor because its name differs between executions.
 var verifCurRoot string
-
-func verifDescribeTree(path string) string {
-	ents, _ := os.ReadDir(path)
-	parts := []string{}
-	for _, e := range ents {
-		parts = append(parts, e.Name()+"="+verifDescribe(filepath.Join(path, e.Name())))
-	}
-	return "dir[" + strings.Join(parts, ",") + "]"
-}
-
-func verifDescribe(p string) string {
-	fi, err := os.Lstat(p)
-	if err != nil {
-		return "error:" + fmt.Sprint(err.(*os.PathError).Err)
-	}
-	switch {
-	case fi.IsDir():
-		return verifDescribeTree(p)
-	case fi.Mode()&os.ModeSymlink != 0:
-		t, _ := os.Readlink(p)
-		return "link:" + strings.Replace(t, verifCurRoot, "<root>", 1)
-	case fi.Mode().IsRegular():
-		b, err := os.ReadFile(p)
-		if err != nil {
-			return "unreadable"
-		}
-		return verifFileDesc(fi.Mode(), b)
-	}
-	return "other:" + fi.Mode().Type().String()
-}
 
 func verifResolve(p string) string {
 	fi, err := os.Stat(p)
@@ -433,10 +431,11 @@ func verifResolve(p string) string {
 // recursive descriptor); tree mode records every non-directory below root by
 // relative path plus the directories whose name matches the patterns.
 func verifSnapshot(root string, tree bool, managedBase func(string) bool) *verifSnap {
-	s := &verifSnap{direct: map[string]string{}, resolved: map[string]string{}, fullDir: map[string]bool{}, size: map[string]int64{}}
-	var walk func(rel string)
-	walk = func(rel string) {
+	s := &verifSnap{direct: map[string]string{}, resolved: map[string]string{}, fullDir: map[string]bool{}, size: map[string]int64{}, ents: map[string]verifEnt{}}
+	var walk func(rel string, depth int) string
+	walk = func(rel string, depth int) string {
 		ents, _ := os.ReadDir(filepath.Join(root, rel))
+		parts := make([]string, 0, len(ents))
 		for _, e := range ents {
 			r := filepath.Join(rel, e.Name())
 			p := filepath.Join(root, r)
@@ -444,32 +443,141 @@ func verifSnapshot(root string, tree bool, managedBase func(string) bool) *verif
 			if err != nil {
 				continue
 			}
-			if fi.IsDir() {
-				sub, _ := os.ReadDir(p)
-				if len(sub) > 0 {
+			var d string
+			switch {
+			case fi.IsDir():
+				s.ents[r] = verifEnt{kind: 'd'}
+				d = walk(r, depth+1)
+				if d != "dir[]" {
 					s.fullDir[r] = true
 				}
-				if !tree {
-					s.direct[r] = verifDescribeTree(p)
-					continue
+				if tree {
+					if managedBase(e.Name()) {
+						s.direct[r] = "dir"
+					}
+				} else if depth == 0 {
+					s.direct[r] = d
 				}
-				if managedBase(e.Name()) {
-					s.direct[r] = "dir"
+				parts = append(parts, e.Name()+"="+d)
+				continue
+			case fi.Mode()&os.ModeSymlink != 0:
+				t, _ := os.Readlink(p)
+				s.ents[r] = verifEnt{kind: 'l', target: t}
+				d = "link:" + strings.Replace(t, verifCurRoot, "<root>", 1)
+				if tree || depth == 0 {
+					s.resolved[r] = verifResolve(p)
 				}
-				walk(r)
+			case fi.Mode().IsRegular():
+				b, err := os.ReadFile(p)
+				if err != nil {
+					d = "unreadable"
+				} else {
+					d = verifFileDesc(fi.Mode(), b)
+				}
+				s.ents[r] = verifEnt{kind: 'f', data: b, perm: fi.Mode().Perm()}
+				if tree || depth == 0 {
+					s.size[r] = fi.Size()
+				}
+			default:
+				s.ents[r] = verifEnt{kind: 'o'}
+				d = "other:" + fi.Mode().Type().String()
+			}
+			if tree || depth == 0 {
+				s.direct[r] = d
+			}
+			parts = append(parts, e.Name()+"="+d)
+		}
+		return "dir[" + strings.Join(parts, ",") + "]"
+	}
+	walk(".", 0)
+	return s
+}
+
+// verifDescribeTree is the descriptor of a whole directory (used for the
+// places that must never change).
+func verifDescribeTree(path string) string {
+	ents, _ := os.ReadDir(path)
+	parts := []string{}
+	for _, e := range ents {
+		p := filepath.Join(path, e.Name())
+		fi, err := os.Lstat(p)
+		if err != nil {
+			continue
+		}
+		switch {
+		case fi.IsDir():
+			parts = append(parts, e.Name()+"="+verifDescribeTree(p))
+		case fi.Mode().IsRegular():
+			b, _ := os.ReadFile(p)
+			parts = append(parts, e.Name()+"="+verifFileDesc(fi.Mode(), b))
+		default:
+			parts = append(parts, e.Name()+"=other")
+		}
+	}
+	return "dir[" + strings.Join(parts, ",") + "]"
+}
+
+// verifStatSig is a cheap signature of a directory tree that must not change:
+// names, types, modes, sizes, inode numbers and modification times. It is
+// only compared, never logged.
+func verifStatSig(path string) string {
+	var sb strings.Builder
+	var walk func(p string)
+	walk = func(p string) {
+		ents, _ := os.ReadDir(p)
+		for _, e := range ents {
+			q := filepath.Join(p, e.Name())
+			fi, err := os.Lstat(q)
+			if err != nil {
 				continue
 			}
-			s.direct[r] = verifDescribe(p)
-			if fi.Mode().IsRegular() {
-				s.size[r] = fi.Size()
+			var ino uint64
+			if st, ok := fi.Sys().(*syscall.Stat_t); ok {
+				ino = st.Ino
 			}
-			if fi.Mode()&os.ModeSymlink != 0 {
-				s.resolved[r] = verifResolve(p)
+			fmt.Fprintf(&sb, "%s|%v|%d|%d|%d;", e.Name(), fi.Mode(), fi.Size(), ino, fi.ModTime().UnixNano())
+			if fi.IsDir() {
+				sb.WriteString("(")
+				walk(q)
+				sb.WriteString(")")
 			}
 		}
 	}
-	walk(".")
-	return s
+	walk(path)
+	return sb.String()
+}
+
+// restore puts the directory back into the state of the snapshot.
+func (w *verifWorld) restore(s *verifSnap) {
+	if err := os.RemoveAll(w.dir); err != nil {
+		w.c.Fatalf("restore: %v", err)
+	}
+	if err := os.MkdirAll(w.dir, 0755); err != nil {
+		w.c.Fatalf("restore: %v", err)
+	}
+	paths := make([]string, 0, len(s.ents))
+	for p := range s.ents {
+		paths = append(paths, p)
+	}
+	sort.Strings(paths)
+	for _, rel := range paths {
+		e := s.ents[rel]
+		p := filepath.Join(w.dir, rel)
+		var err error
+		switch e.kind {
+		case 'd':
+			err = os.Mkdir(p, 0755)
+		case 'f':
+			if err = os.WriteFile(p, e.data, 0600); err == nil {
+				err = os.Chmod(p, e.perm)
+			}
+		case 'l':
+			err = os.Symlink(e.target, p)
+		}
+		if err != nil {
+			w.c.Fatalf("restore %s: %v", rel, err)
+		}
+	}
 }
 
 func verifSortedKeys(m map[string]string) []string {
@@ -505,8 +613,9 @@ type verifWorld struct {
 	tree      bool
 	globs     []string
 	faultsOn  bool
-	obstacles bool // directories / immutable files may sit on names matching the patterns
-	immut     []string
+	obstacles bool            // directories / immutable files may sit on names matching the patterns
+	immutPlan map[string]bool // relpaths that carry the immutable flag during the calls of this round
+	immutSet  []string        // paths that carry it right now
 	srcSeq    int
 	dirGone   bool
 }
@@ -516,21 +625,17 @@ func (w *verifWorld) managed(rel string) bool {
 }
 
 func (w *verifWorld) clearImmutable() {
-	for i := len(w.immut) - 1; i >= 0; i-- {
-		verifSetImmutable(w.immut[i], false)
+	for i := len(w.immutSet) - 1; i >= 0; i-- {
+		verifSetImmutable(w.immutSet[i], false)
 	}
-	w.immut = nil
+	w.immutSet = nil
 }
 
-func (w *verifWorld) setImmutable(p string) bool {
-	if !verifImmutableOK {
-		return false
-	}
+func (w *verifWorld) setImmutable(p string) {
 	if err := verifSetImmutable(p, true); err != nil {
-		return false
+		w.c.Fatalf("cannot set the immutable flag on %s: %v", p, err)
 	}
-	w.immut = append(w.immut, p)
-	return true
+	w.immutSet = append(w.immutSet, p)
 }
 
 func (w *verifWorld) mustWrite(p string, data []byte, mode os.FileMode) {
@@ -546,7 +651,7 @@ func (w *verifWorld) mustWrite(p string, data []byte, mode os.FileMode) {
 }
 
 // outsideFile makes sure outside/<tag> exists with the given content and
-// returns the link target to use from inside dir/<rel>.
+// returns its path.
 func (w *verifWorld) outsideFile(tag string, data []byte, mode os.FileMode) string {
 	p := filepath.Join(w.outside, tag)
 	w.mustWrite(p, data, mode)
@@ -562,16 +667,21 @@ const (
 	verifInitImmutable
 )
 
+var verifInitKindTab = []int{verifInitAbsent, verifInitAbsent, verifInitAbsent, verifInitAbsent, verifInitAbsent, verifInitFile, verifInitFile, verifInitFile, verifInitFile,
+	verifInitFile, verifInitFile, verifInitLink, verifInitLink, verifInitDirEmpty, verifInitDirFull, verifInitImmutable}
+
 // place (re)creates dir/<rel> according to tape draws. want may be nil.
 func (w *verifWorld) place(rel string, want *verifWant, label string) {
 	c := w.c
 	p := filepath.Join(w.dir, rel)
 	os.RemoveAll(p)
-	kindTab := []int{verifInitAbsent, verifInitAbsent, verifInitAbsent, verifInitAbsent, verifInitAbsent, verifInitFile, verifInitFile, verifInitFile, verifInitFile,
-		verifInitFile, verifInitFile, verifInitLink, verifInitLink, verifInitDirEmpty, verifInitDirFull, verifInitImmutable}
-	kind := kindTab[c.Draw(label+"-kind:"+verifShort(rel), len(kindTab))]
+	delete(w.immutPlan, rel)
+	kind := verifInitKindTab[c.Draw(label+"-kind:"+verifShort(rel), len(verifInitKindTab))]
 	managed := w.managed(rel)
-	if !w.obstacles && (kind == verifInitImmutable || (managed && (kind == verifInitDirEmpty || kind == verifInitDirFull))) {
+	if (!w.obstacles || !verifImmutableOK) && kind == verifInitImmutable {
+		kind = verifInitFile
+	}
+	if !w.obstacles && managed && (kind == verifInitDirEmpty || kind == verifInitDirFull) {
 		kind = verifInitFile
 	}
 	if w.tree && kind == verifInitDirEmpty {
@@ -592,25 +702,21 @@ func (w *verifWorld) place(rel string, want *verifWant, label string) {
 	case verifInitFile, verifInitImmutable:
 		var data []byte
 		mode := os.FileMode(0644)
-		wantRegular := want != nil && want.kind != verifWantNone && want.kind != verifWantSymlink && want.bad == ""
-		cs := c.Draw(label+"-content", 4)
-		if cs == 0 && wantRegular {
+		if c.Draw(label+"-content", 4) == 0 && want.regular() {
 			data = want.data
 		} else {
 			data = verifContent(filepath.Base(rel), verifContentWeights[c.Draw(label+"-variant", len(verifContentWeights))])
 		}
-		ms := c.Draw(label+"-mode", 3)
-		if ms == 0 && wantRegular {
+		if c.Draw(label+"-mode", 3) == 0 && want.regular() {
 			mode = want.mode
 		} else {
 			mode = verifModes[c.Draw(label+"-modeval", len(verifModes))]
 		}
 		w.mustWrite(p, data, mode)
-		imm := false
 		if kind == verifInitImmutable {
-			imm = w.setImmutable(p)
+			w.immutPlan[rel] = true
 		}
-		c.Logf("%s %s: %s immutable=%v", label, verifShort(rel), verifFileDesc(mode, data), imm)
+		c.Logf("%s %s: %s immutable=%v", label, verifShort(rel), verifFileDesc(mode, data), kind == verifInitImmutable)
 	case verifInitDirEmpty:
 		if err := os.MkdirAll(p, 0755); err != nil {
 			c.Fatalf("mkdir %s: %v", p, err)
@@ -626,7 +732,7 @@ func (w *verifWorld) place(rel string, want *verifWant, label string) {
 		case 0:
 			// resolves to a regular file equal to the desired state (or to
 			// some other file if nothing regular is desired)
-			if want != nil && want.kind != verifWantNone && want.kind != verifWantSymlink && want.bad == "" {
+			if want.regular() {
 				target = w.outsideFile("same-"+tag, want.data, want.mode)
 			} else {
 				target = w.outsideFile("some-"+tag, verifContent(tag, 1), 0644)
@@ -655,11 +761,12 @@ func (w *verifWorld) place(rel string, want *verifWant, label string) {
 	}
 }
 
+var verifWantKindTab = []int{verifWantNone, verifWantNone, verifWantNone, verifWantMemory, verifWantMemory, verifWantMemory, verifWantRef, verifWantRefMode, verifWantSymlink, verifWantMemory}
+
 // drawWant draws the desired state of one managed name (0 = not desired).
 func (w *verifWorld) drawWant(rel string) *verifWant {
 	c := w.c
-	kindTab := []int{verifWantNone, verifWantNone, verifWantNone, verifWantMemory, verifWantMemory, verifWantMemory, verifWantRef, verifWantRefMode, verifWantSymlink, verifWantMemory}
-	want := &verifWant{kind: kindTab[c.Draw("want-kind:"+verifShort(rel), len(kindTab))]}
+	want := &verifWant{kind: verifWantKindTab[c.Draw("want-kind:"+verifShort(rel), len(verifWantKindTab))]}
 	if want.kind == verifWantNone {
 		return want
 	}
@@ -672,71 +779,82 @@ func (w *verifWorld) drawWant(rel string) *verifWant {
 	return want
 }
 
-// arm draws the fault of one desired name and builds the FileState that is
-// handed to snapd.
+// arm draws the fault of one desired name (once per round).
 func (w *verifWorld) arm(rel string, want *verifWant) {
 	c := w.c
-	st := &verifState{}
-	want.st = st
 	want.bad, want.fault = "", ""
-	var inner osutil.FileState
+	want.fs = verifFaultSpec{}
 	switch want.kind {
-	case verifWantMemory:
-		inner = &osutil.MemoryFileState{Content: want.data, Mode: want.mode}
 	case verifWantRef:
 		w.srcSeq++
-		p := filepath.Join(w.src, fmt.Sprintf("ref%d", w.srcSeq))
-		w.mustWrite(p, want.data, want.mode)
-		inner = osutil.FileReference{Path: p}
+		want.srcPath = filepath.Join(w.src, fmt.Sprintf("ref%d", w.srcSeq))
+		w.mustWrite(want.srcPath, want.data, want.mode)
 	case verifWantRefMode:
 		w.srcSeq++
-		p := filepath.Join(w.src, fmt.Sprintf("ref%d", w.srcSeq))
-		w.mustWrite(p, want.data, 0600)
-		inner = osutil.FileReferencePlusMode{FileReference: osutil.FileReference{Path: p}, Mode: want.mode}
-	case verifWantSymlink:
-		inner = osutil.SymlinkFileState{Target: want.target}
+		want.srcPath = filepath.Join(w.src, fmt.Sprintf("ref%d", w.srcSeq))
+		w.mustWrite(want.srcPath, want.data, 0600)
 	}
-	if w.faultsOn {
-		f := c.Draw("fault:"+verifShort(rel), 24)
-		switch {
-		case f <= 16:
-		case f <= 18:
-			st.failCall = 1 + c.Draw("fail-call", 3)
-			want.fault = fmt.Sprintf("State() fails at call %d", st.failCall)
-		case f <= 20:
-			st.readFailCall = 3 - c.Draw("read-fail-call", 3)
-			st.readFailAt = c.Draw("read-fail-at", len(want.data)+len(want.target)+1)
-			want.fault = fmt.Sprintf("reader of call %d fails after %d bytes", st.readFailCall, st.readFailAt)
-		case f <= 22:
-			if len(want.data) > 1000 {
-				st.chunk = []int{4096, 16383, 5000, 16385}[c.Draw("chunk", 4)]
-			} else {
-				st.chunk = 1 + c.Draw("chunk", 7)
-			}
-			want.fault = fmt.Sprintf("short reads of %d bytes", st.chunk)
-		default:
-			switch c.Draw("bad-kind", 4) {
-			case 0:
-				inner = osutil.FileReference{Path: filepath.Join(w.src, "no-such-source")}
-				want.bad = "reference to a missing file"
-			case 1:
-				inner = osutil.FileReference{Path: w.src}
-				want.bad = "reference to a directory"
-			case 2:
-				inner = &osutil.MemoryFileState{Content: want.data, Mode: os.ModeDir | 0755}
-				want.bad = "memory state with directory mode"
-			case 3:
-				st.pipeMode = true
-				want.bad = "state reporting a named pipe mode"
-			}
+	if !w.faultsOn {
+		return
+	}
+	fs := &want.fs
+	f := c.Draw("fault:"+verifShort(rel), 24)
+	switch {
+	case f <= 16:
+	case f <= 18:
+		fs.failCall = 1 + c.Draw("fail-call", 3)
+		want.fault = fmt.Sprintf("State() fails at call %d", fs.failCall)
+	case f <= 20:
+		fs.readFailCall = 3 - c.Draw("read-fail-call", 3)
+		fs.readFailAt = c.Draw("read-fail-at", len(want.data)+len(want.target)+1)
+		want.fault = fmt.Sprintf("reader of call %d fails after %d bytes", fs.readFailCall, fs.readFailAt)
+	case f <= 22:
+		if len(want.data) > 1000 {
+			fs.chunk = []int{4096, 16383, 5000, 16385}[c.Draw("chunk", 4)]
+		} else {
+			fs.chunk = 1 + c.Draw("chunk", 7)
 		}
+		want.fault = fmt.Sprintf("short reads of %d bytes", fs.chunk)
+	default:
+		fs.badKind = 1 + c.Draw("bad-kind", 4)
+		want.bad = []string{"", "reference to a missing file", "reference to a directory", "memory state with directory mode", "state reporting a named pipe mode"}[fs.badKind]
 	}
-	st.inner = inner
 }
 
+// newState builds the FileState handed to snapd for one execution.
+func (w *verifWorld) newState(want *verifWant) *verifState {
+	fs := want.fs
+	st := &verifState{failCall: fs.failCall, readFailCall: fs.readFailCall, readFailAt: fs.readFailAt, chunk: fs.chunk}
+	switch want.kind {
+	case verifWantMemory:
+		st.inner = &osutil.MemoryFileState{Content: want.data, Mode: want.mode}
+	case verifWantRef:
+		st.inner = osutil.FileReference{Path: want.srcPath}
+	case verifWantRefMode:
+		st.inner = osutil.FileReferencePlusMode{FileReference: osutil.FileReference{Path: want.srcPath}, Mode: want.mode}
+	case verifWantSymlink:
+		st.inner = osutil.SymlinkFileState{Target: want.target}
+	}
+	switch fs.badKind {
+	case 1:
+		st.inner = osutil.FileReference{Path: filepath.Join(w.src, "no-such-source")}
+	case 2:
+		st.inner = osutil.FileReference{Path: w.src}
+	case 3:
+		st.inner = &osutil.MemoryFileState{Content: want.data, Mode: os.ModeDir | 0755}
+	case 4:
+		st.pipeMode = true
+	}
+	return st
+}
+
+// verifRound is one execution of one round.
 type verifRound struct {
 	wants       map[string]*verifWant // only desired ones
+	states      map[string]*verifState
 	immutDir    bool
+	immutPaths  map[string]bool
+	contentDirs []string // tree variant: keys of the content map
 	before      *verifSnap
 	after       *verifSnap
 	outBefore   string
@@ -744,8 +862,34 @@ type verifRound struct {
 	changed     []string
 	removed     []string
 	err         error
-	immutPaths  map[string]bool
-	contentDirs []string // tree variant: keys of the content map
+}
+
+// verifVerdict collects what the oracle says about one execution, so that it
+// can be applied (or dropped) afterwards.
+type verifVerdict struct {
+	viol   [][2]string
+	counts []string
+	notes  []string
+}
+
+func (v *verifVerdict) violate(class, format string, args ...interface{}) {
+	v.viol = append(v.viol, [2]string{class, fmt.Sprintf(format, args...)})
+}
+func (v *verifVerdict) count(name string) { v.counts = append(v.counts, name) }
+func (v *verifVerdict) note(format string, args ...interface{}) {
+	v.notes = append(v.notes, fmt.Sprintf(format, args...))
+}
+
+func (w *verifWorld) apply(v *verifVerdict) {
+	for _, n := range v.notes {
+		w.note("%s", n)
+	}
+	for _, n := range v.counts {
+		w.c.Count(n)
+	}
+	for _, x := range v.viol {
+		w.c.Violate(x[0], "%s", x[1])
+	}
 }
 
 // ---------------------------------------------------------------------------
@@ -801,8 +945,8 @@ func verifSet(l []string) (map[string]bool, bool) {
 	return m, dup
 }
 
-func (w *verifWorld) judge(r *verifRound, round int) {
-	c := w.c
+func (w *verifWorld) judge(r *verifRound, round int) *verifVerdict {
+	v := &verifVerdict{}
 	before, after := r.before, r.after
 
 	// undeletable: entries whose removal cannot succeed in this round
@@ -811,8 +955,7 @@ func (w *verifWorld) judge(r *verifRound, round int) {
 			return true
 		}
 		if w.tree {
-			// a file below an immutable directory does not occur; a
-			// directory matching the patterns is always non-empty here
+			// a directory matching the patterns is always non-empty here
 			return before.direct[rel] == "dir"
 		}
 		return before.fullDir[rel]
@@ -824,18 +967,19 @@ func (w *verifWorld) judge(r *verifRound, round int) {
 			continue
 		}
 		if a, ok := after.direct[rel]; !ok {
-			c.Violate("C23/unrelated-changed", "round %d: entry %s not matching %v disappeared (was %s)", round, verifShort(rel), w.globs, before.direct[rel])
+			v.violate("C23/unrelated-changed", "round %d: entry %s not matching %v disappeared (was %s)", round, verifShort(rel), w.globs, before.direct[rel])
 		} else if a != before.direct[rel] {
-			c.Violate("C23/unrelated-changed", "round %d: entry %s not matching %v changed from %s to %s", round, verifShort(rel), w.globs, before.direct[rel], a)
+			v.violate("C23/unrelated-changed", "round %d: entry %s not matching %v changed from %s to %s", round, verifShort(rel), w.globs, before.direct[rel], a)
 		}
 	}
 	for _, rel := range verifSortedKeys(after.direct) {
 		if _, ok := before.direct[rel]; !ok && !w.managed(rel) {
-			c.Violate("C23/stray-entry", "round %d: entry %s not matching %v appeared: %s", round, verifShort(rel), w.globs, after.direct[rel])
+			v.violate("C23/stray-entry", "round %d: entry %s not matching %v appeared: %s", round, verifShort(rel), w.globs, after.direct[rel])
 		}
 	}
 	if r.outBefore != r.outAfter {
-		c.Violate("C23/outside-changed", "round %d: files outside the synchronized directory changed: %s -> %s", round, r.outBefore, r.outAfter)
+		v.note("outside now: %s %s", verifDescribeTree(w.outside), verifDescribeTree(w.src))
+		v.violate("C23/outside-changed", "round %d: files outside the synchronized directory (symlink targets, reference sources) were modified", round)
 	}
 
 	// facts about faults
@@ -845,10 +989,11 @@ func (w *verifWorld) judge(r *verifRound, round int) {
 	readFired := map[string]bool{}
 	for _, rel := range verifSortedWants(r.wants) {
 		want := r.wants[rel]
-		if want.st.firedState || want.st.firedRead {
+		st := r.states[rel]
+		if st.firedState || st.firedRead {
 			anyFired = true
 		}
-		if want.st.firedRead {
+		if st.firedRead {
 			readFired[rel] = true
 		}
 		if want.bad != "" && obstacle == "" {
@@ -922,7 +1067,7 @@ func (w *verifWorld) judge(r *verifRound, round int) {
 	}
 
 	if r.err == nil {
-		c.Count("outcome:success")
+		v.count("outcome:success")
 		// 2. success: exactly the desired files
 		for _, rel := range verifSortedKeys(after.direct) {
 			if !w.managed(rel) {
@@ -930,47 +1075,47 @@ func (w *verifWorld) judge(r *verifRound, round int) {
 			}
 			want := r.wants[rel]
 			if want == nil {
-				c.Violate("C23/stale-managed-entry", "round %d: call succeeded but %s (matching %v, not desired) is still there: %s", round, verifShort(rel), w.globs, after.direct[rel])
+				v.violate("C23/stale-managed-entry", "round %d: call succeeded but %s (matching %v, not desired) is still there: %s", round, verifShort(rel), w.globs, after.direct[rel])
 				continue
 			}
 			ok, lenient := verifExact(after, rel, want)
 			if !ok {
-				c.Violate(verifMismatchClass(after.direct[rel], want), "round %d: call succeeded but %s is %s, desired %s", round, verifShort(rel), after.direct[rel], want.desc())
+				v.violate(verifMismatchClass(after.direct[rel], want), "round %d: call succeeded but %s is %s, desired %s", round, verifShort(rel), after.direct[rel], want.desc())
 			}
 			if lenient {
-				c.Count("probe:symlink-left-in-place")
+				v.count("probe:symlink-left-in-place")
 			}
 		}
 		for _, rel := range verifSortedWants(r.wants) {
 			if _, ok := after.direct[rel]; !ok {
 				if r.wants[rel].bad != "" {
-					c.Violate("C23/success-despite-unsatisfiable-state", "round %d: call succeeded although the state of %s is %s", round, verifShort(rel), r.wants[rel].bad)
+					v.violate("C23/success-despite-unsatisfiable-state", "round %d: call succeeded although the state of %s is a %s", round, verifShort(rel), r.wants[rel].bad)
 				} else {
-					c.Violate("C23/desired-missing", "round %d: call succeeded but desired %s is missing", round, verifShort(rel))
+					v.violate("C23/desired-missing", "round %d: call succeeded but desired %s is missing", round, verifShort(rel))
 				}
 			}
 		}
 		// reported lists: exactly what differs on disk
 		chg, dup := verifSet(r.changed)
 		if dup {
-			c.Violate("C23/changed-list", "round %d: duplicates in changed list %v", round, verifShortAll(r.changed))
+			v.violate("C23/changed-list", "round %d: duplicates in changed list %v", round, verifShortAll(r.changed))
 		}
 		for _, rel := range verifSortedWants(r.wants) {
 			differs := before.direct[rel] != after.direct[rel]
 			switch {
 			case differs && !chg[rel]:
-				c.Violate("C23/changed-list", "round %d: %s went from %q to %q but is not in changed list %v", round, verifShort(rel), before.direct[rel], after.direct[rel], verifShortAll(r.changed))
+				v.violate("C23/changed-list", "round %d: %s went from %q to %q but is not in changed list %v", round, verifShort(rel), before.direct[rel], after.direct[rel], verifShortAll(r.changed))
 			case !differs && chg[rel] && !readFired[rel]:
-				c.Violate("C23/changed-list", "round %d: %s is unchanged (%s) but reported in changed list %v", round, verifShort(rel), after.direct[rel], verifShortAll(r.changed))
+				v.violate("C23/changed-list", "round %d: %s is unchanged (%s) but reported in changed list %v", round, verifShort(rel), after.direct[rel], verifShortAll(r.changed))
 			}
 			delete(chg, rel)
 		}
 		for _, rel := range verifSortedBool(chg) {
-			c.Violate("C23/changed-list", "round %d: changed list names %s which is not a desired file", round, verifShort(rel))
+			v.violate("C23/changed-list", "round %d: changed list names %s which is not a desired file", round, verifShort(rel))
 		}
 		rem, dup := verifSet(r.removed)
 		if dup {
-			c.Violate("C23/removed-list", "round %d: duplicates in removed list %v", round, verifShortAll(r.removed))
+			v.violate("C23/removed-list", "round %d: duplicates in removed list %v", round, verifShortAll(r.removed))
 		}
 		for _, rel := range verifSortedKeys(before.direct) {
 			if !w.managed(rel) {
@@ -979,69 +1124,72 @@ func (w *verifWorld) judge(r *verifRound, round int) {
 			_, still := after.direct[rel]
 			switch {
 			case !still && !rem[rel]:
-				c.Violate("C23/removed-list", "round %d: %s was removed but is not in removed list %v", round, verifShort(rel), verifShortAll(r.removed))
+				v.violate("C23/removed-list", "round %d: %s was removed but is not in removed list %v", round, verifShort(rel), verifShortAll(r.removed))
 			case still && rem[rel]:
-				c.Violate("C23/removed-list", "round %d: %s is reported removed but still exists", round, verifShort(rel))
+				v.violate("C23/removed-list", "round %d: %s is reported removed but still exists", round, verifShort(rel))
 			}
 			delete(rem, rel)
 		}
 		for _, rel := range verifSortedBool(rem) {
-			c.Violate("C23/removed-list", "round %d: removed list names %s which did not exist before", round, verifShort(rel))
+			v.violate("C23/removed-list", "round %d: removed list names %s which did not exist before", round, verifShort(rel))
 		}
 		// probes
 		if len(r.wants) > 0 && len(r.changed) == 0 && len(r.removed) == 0 {
-			c.Count("probe:nothing-to-do")
+			v.count("probe:nothing-to-do")
 		}
 		for _, rel := range verifSortedWants(r.wants) {
 			b, a := before.direct[rel], after.direct[rel]
 			if strings.HasPrefix(b, "file:") && strings.HasPrefix(a, "file:") && b != a && b[:9] == a[:9] && before.size[rel] == after.size[rel] && after.size[rel] > 0 {
-				c.Count("probe:same-size-same-mode-rewritten")
+				v.count("probe:same-size-same-mode-rewritten")
 			}
 			if b == a && len(r.wants[rel].data) > 16384 {
-				c.Count("probe:multi-chunk-equal")
+				v.count("probe:multi-chunk-equal")
 			}
 			if strings.HasPrefix(b, "link:") && strings.HasPrefix(a, "file:") {
-				c.Count("probe:symlink-replaced")
+				v.count("probe:symlink-replaced")
 			}
 		}
-		return
+		for _, rel := range r.removed {
+			if strings.HasSuffix(rel, "~") {
+				v.count("probe:stale-temp-file-removed")
+			}
+		}
+		return v
 	}
 
 	// 3. failure
-	c.Count("outcome:error")
+	v.count("outcome:error")
 	excuse := anyFired || obstacle != "" || undeletableStale != ""
 	failClosed := len(survivors) == 0
 	switch {
 	case failClosed:
 		if !excuse {
-			c.Violate("C23/spurious-error", "round %d: call failed with %q although nothing was in the way and no fault fired", round, verifErrText(r.err))
+			v.violate("C23/spurious-error", "round %d: call failed with %q although nothing was in the way and no fault fired", round, verifErrText(r.err))
 		}
-		c.Count("probe:fail-closed")
-		nManagedBefore := 0
+		v.count("probe:fail-closed")
 		for rel := range before.direct {
 			if w.managed(rel) && !undeletable(rel) {
-				nManagedBefore++
+				v.count("probe:erase-removed-existing")
+				break
 			}
-		}
-		if nManagedBefore > 0 {
-			c.Count("probe:erase-removed-existing")
 		}
 	case allExact && undeletableStale != "":
 		// only a removal failed: the desired files are all in place, and
 		// nothing stale that could be removed is left
-		c.Count("probe:removal-only-failure")
+		v.count("probe:removal-only-failure")
 	default:
 		switch {
 		case anyFired || obstacle != "":
-			w.note("removable survivors: %v; error: %s", survivors, verifErrText(r.err))
-			c.Violate("C23/fail-open:managed-entry-survives-write-failure", "round %d: a write failed (%s) but removable entries matching %v remain (see the unhashed lines of the trace for which)", round, verifCause(anyFired, obstacle), w.globs)
+			v.note("removable survivors: %v; error: %s", survivors, verifErrText(r.err))
+			v.violate("C23/fail-open:managed-entry-survives-write-failure", "round %d: a write failed (%s) but removable entries matching %v remain (the unhashed lines of the trace say which)", round, verifCause(anyFired, obstacle), w.globs)
 		case undeletableStale != "":
-			w.note("error: %s", verifErrText(r.err))
-			c.Violate("C23/removal-failure:neither-synchronized-nor-erased", "round %d: removal of %s failed; entries matching %v are neither all desired nor all gone: %s", round, undeletableStale, w.globs, after)
+			v.note("error: %s; left: %s", verifErrText(r.err), after)
+			v.violate("C23/removal-failure:neither-synchronized-nor-erased", "round %d: removal of %s failed; entries matching %v are neither all desired nor all gone", round, undeletableStale, w.globs)
 		default:
-			c.Violate("C23/spurious-error", "round %d: call failed with %q although nothing was in the way and no fault fired; left %s", round, verifErrText(r.err), after)
+			v.violate("C23/spurious-error", "round %d: call failed with %q although nothing was in the way and no fault fired; left %s", round, verifErrText(r.err), after)
 		}
 	}
+	return v
 }
 
 // note adds a line to the human readable trace only (not to the hashed event
@@ -1132,6 +1280,12 @@ var verifTreeGlobSets = [][]string{
 	{"snap.foo.*.png", "snap.foo.*.svg"},
 }
 
+// verifExecutions is how often a failing round is executed at most (from the
+// same restored initial state) while no execution violates the property:
+// the position of the failing file in snapd's loop over the content map is
+// decided by Go's map iteration order, which the tape cannot control.
+const verifExecutions = 5
+
 // ---------------------------------------------------------------------------
 // the run
 
@@ -1144,7 +1298,7 @@ func verifRunC23(c *verifsim.Ctx) {
 		c.Fatalf("mkdtemp: %v", err)
 	}
 	verifCurRoot = root
-	w := &verifWorld{c: c, root: root, dir: filepath.Join(root, "dir"), outside: filepath.Join(root, "outside"), src: filepath.Join(root, "src")}
+	w := &verifWorld{c: c, root: root, dir: filepath.Join(root, "dir"), outside: filepath.Join(root, "outside"), src: filepath.Join(root, "src"), immutPlan: map[string]bool{}}
 	defer func() {
 		w.clearImmutable()
 		if err := os.RemoveAll(root); err != nil {
@@ -1178,11 +1332,78 @@ func verifRunC23(c *verifsim.Ctx) {
 	}
 }
 
-func (w *verifWorld) finishRound(r *verifRound, round int) {
-	c := w.c
-	// what fired
+// execute performs the call of one round once. call gets the fresh states.
+func (w *verifWorld) execute(tmpl *verifRound, reuse *verifSnap, call func(r *verifRound)) *verifRound {
+	r := &verifRound{wants: tmpl.wants, immutDir: tmpl.immutDir, immutPaths: tmpl.immutPaths, contentDirs: tmpl.contentDirs, states: map[string]*verifState{}}
 	for _, rel := range verifSortedWants(r.wants) {
-		st := r.wants[rel].st
+		r.states[rel] = w.newState(r.wants[rel])
+	}
+	snap := func() *verifSnap {
+		return verifSnapshot(w.dir, w.tree, func(b string) bool { return verifMatchAny(w.globs, b) })
+	}
+	if reuse != nil {
+		r.before = reuse
+	} else {
+		r.before = snap()
+	}
+	r.outBefore = verifStatSig(w.outside) + verifStatSig(w.src)
+	for _, rel := range verifSortedBool(r.immutPaths) {
+		w.setImmutable(filepath.Join(w.dir, rel))
+	}
+	if r.immutDir {
+		w.setImmutable(w.dir)
+	}
+	call(r)
+	w.clearImmutable()
+	r.after = snap()
+	r.outAfter = verifStatSig(w.outside) + verifStatSig(w.src)
+	return r
+}
+
+// runRound executes one round, repeats it while it fails without a violation
+// (see verifExecutions), logs and applies the verdict.
+func (w *verifWorld) runRound(round int, tmpl *verifRound, entries int, call func(r *verifRound)) {
+	c := w.c
+	tmpl.immutPaths = map[string]bool{}
+	for rel := range w.immutPlan {
+		tmpl.immutPaths[rel] = true
+	}
+	r := w.execute(tmpl, nil, call)
+	c.Logf("round %d: before=%s immutable-dir=%v", round, r.before, r.immutDir)
+	for _, rel := range verifSortedWants(r.wants) {
+		c.Logf("  want %s: %s", verifShort(rel), r.wants[rel])
+	}
+	v := w.judge(r, round)
+	first := r
+	if r.err != nil && len(v.viol) == 0 && !w.dirGone && entries >= 2 {
+		for k := 1; k < verifExecutions; k++ {
+			w.restore(first.before)
+			var reuse *verifSnap
+			if k > 1 {
+				reuse = first.before // (the first restore of a round is verified)
+			}
+			r2 := w.execute(tmpl, reuse, call)
+			c.Count("executions:repeated")
+			if r2.before.String() != first.before.String() {
+				c.Fatalf("restore does not reproduce the initial state: %s vs %s", r2.before, first.before)
+			}
+			v2 := w.judge(r2, round)
+			if (r2.err == nil) != (first.err == nil) || r2.after.String() != first.after.String() {
+				// allowed by the statement as long as every outcome is, but
+				// worth knowing (and it would make the event log depend on
+				// the map order)
+				c.Count("obs:outcome-depends-on-map-order")
+				w.note("execution %d differs: err=%v after=%s", k, r2.err != nil, r2.after)
+			}
+			if len(v2.viol) > 0 {
+				r, v = r2, v2
+				break
+			}
+		}
+	}
+	// counters of what fired, from the first execution
+	for _, rel := range verifSortedWants(first.wants) {
+		st := first.states[rel]
 		if st.firedState {
 			c.Count("fault:state-error")
 		}
@@ -1199,32 +1420,35 @@ func (w *verifWorld) finishRound(r *verifRound, round int) {
 			c.Add("obs:readers-not-closed", int64(st.opens-st.closes))
 		}
 	}
-	if r.err != nil {
+	if first.err != nil {
 		c.Nontrivial()
 		// environment obstacles are counted when the call failed in their presence
-		for _, rel := range verifSortedWants(r.wants) {
-			want := r.wants[rel]
-			d := r.before.direct[rel]
+		for _, rel := range verifSortedWants(first.wants) {
+			want := first.wants[rel]
+			d := first.before.direct[rel]
+			same, _ := verifExact(first.before, rel, want)
 			switch {
 			case want.bad != "":
 				c.Count("fault:unsatisfiable-state")
-			case len(filepath.Base(rel)) > 240 && !verifSameBefore(r, rel):
+			case len(filepath.Base(rel)) > 240 && !same:
 				c.Count("fault:name-too-long")
 			case strings.HasPrefix(d, "dir"):
 				c.Count("fault:directory-in-the-way")
-			case strings.HasPrefix(d, "link:") && r.before.resolved[rel] == "dir" && want.kind != verifWantSymlink:
+			case strings.HasPrefix(d, "link:") && first.before.resolved[rel] == "dir" && want.kind != verifWantSymlink:
 				c.Count("fault:symlink-to-directory-in-the-way")
 			}
 		}
-		if r.immutDir {
+		if first.immutDir {
 			c.Count("fault:immutable-directory")
 		}
-		if len(r.immutPaths) > 0 {
-			c.Count("fault:immutable-file")
+		for _, rel := range verifSortedBool(first.immutPaths) {
+			if w.managed(rel) {
+				c.Count("fault:immutable-file")
+			}
 		}
-		for _, rel := range verifSortedKeys(r.before.direct) {
-			if w.managed(rel) && r.wants[rel] == nil && strings.HasPrefix(r.before.direct[rel], "dir") {
-				if _, still := r.after.direct[rel]; still {
+		for _, rel := range verifSortedKeys(first.before.direct) {
+			if w.managed(rel) && first.wants[rel] == nil && strings.HasPrefix(first.before.direct[rel], "dir") {
+				if _, still := first.after.direct[rel]; still {
 					c.Count("fault:undeletable-directory")
 				}
 			}
@@ -1233,39 +1457,31 @@ func (w *verifWorld) finishRound(r *verifRound, round int) {
 			c.Count("fault:missing-directory")
 		}
 	}
-	if len(r.changed) > 0 && len(r.removed) > 0 {
+	if len(first.changed) > 0 && len(first.removed) > 0 {
 		c.Nontrivial()
 	}
-	w.judge(r, round)
-}
-
-func verifSameBefore(r *verifRound, rel string) bool {
-	ok, _ := verifExact(r.before, rel, r.wants[rel])
-	return ok
-}
-
-func (w *verifWorld) outsideDesc() string {
-	return verifDescribeTree(w.outside) + verifDescribeTree(w.src)
-}
-
-func (w *verifWorld) logWants(r *verifRound) {
-	for _, rel := range verifSortedWants(r.wants) {
-		w.c.Logf("  want %s: %s", verifShort(rel), r.wants[rel])
+	// the hashed event log
+	switch {
+	case r.err == nil:
+		ch := append([]string{}, r.changed...)
+		rm := append([]string{}, r.removed...)
+		sort.Strings(ch)
+		sort.Strings(rm)
+		c.Logf("round %d: ok changed=%v removed=%v after=%s", round, verifShortAll(ch), verifShortAll(rm), r.after)
+	case len(v.viol) == 0:
+		// neither the error text nor the lists are hashed on failure: with
+		// several obstacles they depend on snapd's map iteration order
+		c.Logf("round %d: error after=%s", round, r.after)
+		w.note("error=%q changed=%v removed=%v", verifErrText(r.err), verifShortAll(r.changed), verifShortAll(r.removed))
+	default:
+		// which entries survive a mishandled failure depends on the map
+		// order too: only the verdict is hashed
+		c.Logf("round %d: error, violating execution", round)
+		w.note("error=%q changed=%v removed=%v after=%s", verifErrText(r.err), verifShortAll(r.changed), verifShortAll(r.removed), r.after)
 	}
-}
-
-func (w *verifWorld) immutMap() map[string]bool {
-	m := map[string]bool{}
-	for _, p := range w.immut {
-		if p == w.dir {
-			continue
-		}
-		rel, err := filepath.Rel(w.dir, p)
-		if err == nil {
-			m[rel] = true
-		}
-	}
-	return m
+	w.apply(v)
+	// immutability is per round
+	w.immutPlan = map[string]bool{}
 }
 
 // verifRunDir: EnsureDirState / EnsureDirStateGlobs on a flat directory.
@@ -1287,7 +1503,6 @@ func verifRunDir(w *verifWorld) {
 	rounds := 1 + c.Draw("rounds", 3)
 	var wants map[string]*verifWant
 	for round := 0; round < rounds && len(c.Violations) == 0; round++ {
-		r := &verifRound{}
 		// desired map: redraw, or keep the previous one (idempotence)
 		if round == 0 || c.Draw("redraw-wants", 3) != 0 {
 			wants = map[string]*verifWant{}
@@ -1300,7 +1515,6 @@ func verifRunDir(w *verifWorld) {
 				}
 			}
 		}
-		r.wants = wants
 		// the directory: initial population, later drift
 		if !w.dirGone {
 			for _, n := range names {
@@ -1311,49 +1525,36 @@ func verifRunDir(w *verifWorld) {
 				}
 			}
 		}
-		content := map[string]osutil.FileState{}
-		for _, n := range verifSortedWants(wants) {
+		order := verifSortedWants(wants)
+		for _, n := range order {
 			w.arm(n, wants[n])
-			content[n] = wants[n].st
 		}
-		r.immutPaths = w.immutMap()
-		if w.obstacles && !w.dirGone && c.Draw("immutable-dir", 24) == 23 {
-			r.immutDir = w.setImmutable(w.dir)
+		// insertion order of the content map (with Go's small maps the
+		// iteration order is a rotation of it; nothing relies on that)
+		if len(order) >= 2 {
+			perm := c.Perm("insert-order", len(order))
+			o2 := make([]string, len(order))
+			for i, j := range perm {
+				o2[i] = order[j]
+			}
+			order = o2
 		}
-		r.before = verifSnapshot(w.dir, false, nil)
-		r.outBefore = w.outsideDesc()
-		c.Logf("round %d: before=%s immutable-dir=%v", round, r.before, r.immutDir)
-		w.logWants(r)
-
-		if useSingle {
-			r.changed, r.removed, r.err = osutil.EnsureDirState(w.dir, w.globs[0], content)
-		} else {
-			r.changed, r.removed, r.err = osutil.EnsureDirStateGlobs(w.dir, w.globs, content)
+		tmpl := &verifRound{wants: wants}
+		if w.obstacles && verifImmutableOK && !w.dirGone && c.Draw("immutable-dir", 24) == 23 {
+			tmpl.immutDir = true
 		}
-		c.Count("calls:dir")
-
-		w.clearImmutable()
-		r.after = verifSnapshot(w.dir, false, nil)
-		r.outAfter = w.outsideDesc()
-		verifLogResult(c, round, r)
-		w.finishRound(r, round)
-	}
-}
-
-func verifLogResult(c *verifsim.Ctx, round int, r *verifRound) {
-	if r.err == nil {
-		ch := append([]string{}, r.changed...)
-		rm := append([]string{}, r.removed...)
-		sort.Strings(ch)
-		sort.Strings(rm)
-		c.Logf("round %d: ok changed=%v removed=%v after=%s", round, verifShortAll(ch), verifShortAll(rm), r.after)
-	} else {
-		// neither the error text nor the lists are hashed on failure: with
-		// several obstacles they depend on snapd's map iteration order
-		c.Logf("round %d: error after=%s", round, r.after)
-		if c.Verbose {
-			c.Trace = append(c.Trace, fmt.Sprintf("    (unhashed) error=%q changed=%v removed=%v", verifErrText(r.err), verifShortAll(r.changed), verifShortAll(r.removed)))
-		}
+		w.runRound(round, tmpl, len(order), func(r *verifRound) {
+			content := map[string]osutil.FileState{}
+			for _, n := range order {
+				content[n] = r.states[n]
+			}
+			if useSingle {
+				r.changed, r.removed, r.err = osutil.EnsureDirState(w.dir, w.globs[0], content)
+			} else {
+				r.changed, r.removed, r.err = osutil.EnsureDirStateGlobs(w.dir, w.globs, content)
+			}
+			c.Count("calls:dir")
+		})
 	}
 }
 
@@ -1367,7 +1568,6 @@ func verifRunTree(w *verifWorld) {
 	var contentDirs map[string]bool
 	squat := false
 	for round := 0; round < rounds && len(c.Violations) == 0; round++ {
-		r := &verifRound{}
 		if round == 0 {
 			// a regular file where the content map may want a directory
 			if w.obstacles && c.Draw("file-squats-dir", 6) == 5 {
@@ -1395,7 +1595,6 @@ func verifRunTree(w *verifWorld) {
 				}
 			}
 		}
-		r.wants = wants
 		for _, d := range verifTreeDirs {
 			if squat && d == "other-theme" {
 				continue
@@ -1421,43 +1620,25 @@ func verifRunTree(w *verifWorld) {
 				}
 			}
 		}
-		content := map[string]map[string]osutil.FileState{}
-		for _, d := range verifSortedBool(contentDirs) {
-			content[d] = map[string]osutil.FileState{}
-		}
 		for _, rel := range verifSortedWants(wants) {
 			w.arm(rel, wants[rel])
-			content[filepath.Dir(rel)][filepath.Base(rel)] = wants[rel].st
 		}
-		r.immutPaths = w.immutMap()
-		r.contentDirs = verifSortedBool(contentDirs)
-		r.before = verifSnapshot(w.dir, true, func(b string) bool { return verifMatchAny(w.globs, b) })
-		r.outBefore = w.outsideDesc()
-		c.Logf("round %d: content-dirs=%v before=%s", round, verifSortedBool(contentDirs), r.before)
-		w.logWants(r)
-
-		r.changed, r.removed, r.err = osutil.EnsureTreeState(w.dir, w.globs, content)
-		c.Count("calls:tree")
-
-		w.clearImmutable()
-		r.after = verifSnapshot(w.dir, true, func(b string) bool { return verifMatchAny(w.globs, b) })
-		r.outAfter = w.outsideDesc()
-		verifLogResult(c, round, r)
-		if r.err != nil && squat && contentDirs["other-theme"] {
-			c.Count("fault:file-squats-directory")
-		}
-		if r.err != nil {
-			n := 0
-			for rel := range r.before.direct {
-				if _, still := r.after.direct[rel]; w.managed(rel) && !still {
-					n++
-				}
+		tmpl := &verifRound{wants: wants, contentDirs: verifSortedBool(contentDirs)}
+		c.Logf("round %d: content-dirs=%v", round, tmpl.contentDirs)
+		w.runRound(round, tmpl, 2, func(r *verifRound) {
+			content := map[string]map[string]osutil.FileState{}
+			for _, d := range r.contentDirs {
+				content[d] = map[string]osutil.FileState{}
 			}
-			if n > 1 {
-				c.Count("probe:tree-erase-several")
+			for _, rel := range verifSortedWants(r.wants) {
+				content[filepath.Dir(rel)][filepath.Base(rel)] = r.states[rel]
 			}
-		}
-		w.finishRound(r, round)
+			r.changed, r.removed, r.err = osutil.EnsureTreeState(w.dir, w.globs, content)
+			c.Count("calls:tree")
+			if r.err != nil && squat && contentDirs["other-theme"] {
+				c.Count("fault:file-squats-directory")
+			}
+		})
 	}
 }
 
@@ -1479,38 +1660,38 @@ func verifRunFile(w *verifWorld) {
 			}
 		}
 		for _, n := range append([]string{name}, others...) {
+			wn := want
+			if n != name {
+				wn = nil
+			}
 			if round == 0 {
-				if n == name {
-					w.place(n, want, "init")
-				} else {
-					w.place(n, nil, "init")
-				}
+				w.place(n, wn, "init")
 			} else if c.Draw("drift:"+verifShort(n), 4) == 3 {
-				if n == name {
-					w.place(n, want, "drift")
-				} else {
-					w.place(n, nil, "drift")
-				}
+				w.place(n, wn, "drift")
 			}
 		}
 		w.arm(name, want)
-		immut := w.immutMap()
-		immutDir := false
-		if w.obstacles && c.Draw("immutable-dir", 24) == 23 {
-			immutDir = w.setImmutable(w.dir)
-		}
+		immut := w.immutPlan
+		w.immutPlan = map[string]bool{}
+		immutDir := w.obstacles && verifImmutableOK && c.Draw("immutable-dir", 24) == 23
+		st := w.newState(want)
 		before := verifSnapshot(w.dir, false, nil)
-		outBefore := w.outsideDesc()
+		outBefore := verifStatSig(w.outside) + verifStatSig(w.src)
 		c.Logf("round %d: EnsureFileState(%s) before=%s immutable-dir=%v", round, verifShort(name), before, immutDir)
 		c.Logf("  want %s", want)
+		for _, rel := range verifSortedBool(immut) {
+			w.setImmutable(filepath.Join(w.dir, rel))
+		}
+		if immutDir {
+			w.setImmutable(w.dir)
+		}
 
-		err := osutil.EnsureFileState(filepath.Join(w.dir, name), want.st)
+		err := osutil.EnsureFileState(filepath.Join(w.dir, name), st)
 		c.Count("calls:file")
 
 		w.clearImmutable()
 		after := verifSnapshot(w.dir, false, nil)
-		outAfter := w.outsideDesc()
-		st := want.st
+		outAfter := verifStatSig(w.outside) + verifStatSig(w.src)
 		if st.firedState {
 			c.Count("fault:state-error")
 		}
@@ -1544,7 +1725,8 @@ func verifRunFile(w *verifWorld) {
 			}
 		}
 		if outBefore != outAfter {
-			c.Violate("C23/outside-changed", "round %d: files outside the directory changed: %s -> %s", round, outBefore, outAfter)
+			w.note("outside now: %s %s", verifDescribeTree(w.outside), verifDescribeTree(w.src))
+			c.Violate("C23/outside-changed", "round %d: files outside the directory (symlink targets, reference sources) were modified", round)
 		}
 		wasExact, _ := verifExact(before, name, want)
 		isExact, lenient := verifExact(after, name, want)
@@ -1560,6 +1742,9 @@ func verifRunFile(w *verifWorld) {
 			}
 			if wasExact && before.direct[name] == after.direct[name] && !st.firedRead {
 				c.Violate("C23/changed-list", "round %d: EnsureFileState reported a change of %s although it already was %s", round, verifShort(name), before.direct[name])
+			}
+			if before.direct[name] != after.direct[name] {
+				c.Nontrivial()
 			}
 			c.Count("outcome:success")
 		case "same":
